@@ -204,6 +204,7 @@ def Level.emittedAtDefault : Level → Bool
 /-- one argument of a logger call, as the extractor classifies it -/
 inductive Arg
   | lit                        -- a literal
+  | num                        -- a number built from literals, counters (atomic loads), lengths, arithmetic
   | genErr                     -- an error value that went through `generalizeErr`
   | rawErr (origin : String)   -- an error value printed as returned by the call `origin`
   | typeOf (src : String)      -- operand of a `%T` verb: only its type is printed
@@ -230,30 +231,34 @@ def safeOrigins : List String := [
   "net.ListenTCP", "ln.AcceptTCP",
   -- bare errno values from socket options
   "getOriginalDst", "syscall.SetNonblock",
-  -- `SetDeadline` failures are `OpError{Op: "set", Source: nil, Addr: laddr}` (local address only) or a bare errno
+  -- `SetDeadline` failures are `OpError{Op: "set", Source: nil, Addr: laddr}` (local address only,
+  -- `deadline_error_no_client`) or a bare errno (obfs4: ENOTSUP)
   "clientConn.SetDeadline", "wrapped.SetDeadline",
-  -- GeoIP lookups: hypothesis shared with C03 (error text without the looked-up address; true for
-  -- IPv6-format databases, which every GeoLite2 file is)
+  -- GeoIP lookups: hypothesis shared with C03 (the error text does not repeat the looked-up address; true
+  -- for IPv6-format databases, which every GeoLite2 file is)
   "regManager.GeoIP.CC", "regManager.GeoIP.ASN",
-  -- proxies.go: the PROXY header is written to the covert connection (station → covert endpoints)
+  -- proxies.go: the PROXY header is written to the covert connection (station and covert endpoints); the
+  -- client address is parsed from `RemoteAddr().String()`, which is host:port for TCP and UDP peers
   "writePROXYHeader",
   -- registration.go / registration_ingest.go: configuration, protobuf, registry and HTTP-share errors
-  "lib.GetPhantomSubnetSelector", "geoip.New", "lib.NewPhantomIPSelector", "LoadPhantomSubnets",
-  "regManager.registeredDecoys.Register", "rm.parseRegMessage", "rm.ValidateRegistration",
-  "rm.TrackRegistration", "proto.Marshal", "proto.Unmarshal", "executeHTTPRequest",
-  "rm.NewRegistrationC2SWrapper", "rm.PhantomIsLive"
+  "liveness.New", "phantoms.NewPhantomIPSelector", "geoip.New",
+  "regManager.registeredDecoys.register", "regManager.registeredDecoys.Register",
+  "rm.parseRegMessage", "rm.ValidateRegistration", "rm.TrackRegistration", "proto.Marshal", "proto.Unmarshal",
+  "executeHTTPRequest", "rm.NewRegistrationC2SWrapper", "rm.PhantomIsLive"
 ]
 
 /-- Reviewed: every non-error expression that reaches a logger in the covered files, with the role of the
 address it renders (`none`: it renders no address).  Unlisted expressions fail the call-site theorem. -/
 def exprRoles : List (String × Option Role) := [
-  -- numbers, durations, flags, identifiers
-  ("count", none), ("timeout", none), ("received.Len()", none), ("received.Len() + n", none),
-  ("time.Until(deadline)", none), ("t.Name()", none), ("d", none), ("reg.IDString()", none),
-  ("newRegs[0].IDString()", none), ("tag", none), ("isUpload", none), ("nr", none),
-  ("sig.String()", none), ("reg.RegistrationSource", none), ("parsed.GetRegistrationSource()", none),
-  ("response", none), ("err", none),
-  -- summaries proved address-free / client-free below
+  -- numbers, durations, flags, names, identifiers derived from the shared secret
+  ("count", none), ("timeout", none), ("received.Len() + n", none), ("time.Until(deadline)", none),
+  ("t.Name()", none), ("d", none), ("reg.IDString()", none), ("newRegs[0].IDString()", none), ("tag", none),
+  ("isUpload", none), ("nr", none), ("sig.String()", none), ("reg.RegistrationSource", none),
+  ("parsed.GetRegistrationSource()", none), ("r.TotalRegistrations()", none), ("r.totalTimeouts()", none),
+  -- statistics keyed by ASN / country code, never by address
+  ("asn", none), ("counts.cc", none), ("c.connectingCounts.string()", none),
+  ("counts.connectingCounts.string()", none),
+  -- summaries shown client-free below (`tunnel_summary_no_client`, `digest_omits_registrant`)
   ("tunStatsStr", none), ("statsStr", none), ("reg.String()", none),
   -- addresses that are not a client's
   ("listenAddr", some .station), ("ln.Addr()", some .station), ("originalDstIP", some .phantom),
@@ -267,15 +272,10 @@ def lookupRole (s : String) : List (String × Option Role) → Option (Option Ro
   | [] => none
   | (k, v) :: rest => if k = s then some v else lookupRole s rest
 
-/-- statistics printers (`conn-stats`, `proxy-stats`, registration statistics): all arguments are
-counters, rates, ASNs and country codes read from the statistics structures -/
-def statsPrinters : List String := ["PrintAndReset", "printStats", "PrintStats"]
-
-def Arg.ok (fn : String) : Arg → Bool
-  | .lit | .genErr | .typeOf _ => true
+def Arg.ok : Arg → Bool
+  | .lit | .num | .genErr | .typeOf _ => true
   | .rawErr o => safeOrigins.contains o
   | .expr s =>
-    statsPrinters.contains fn ||
     match lookupRole s exprRoles with
     | some (some .client) => false
     | some _ => true
@@ -286,7 +286,7 @@ the raw read error; it is unreachable for connections that honour `io.Reader` (`
 def exemptFormats : List String := ["unexpected read len error - up:%t (%dB): %s"]
 
 def Site.ok (s : Site) : Bool :=
-  !s.level.emittedAtDefault || exemptFormats.contains s.format || s.args.all (Arg.ok s.fn)
+  !s.level.emittedAtDefault || exemptFormats.contains s.format || s.args.all Arg.ok
 
 /-! ### rendering of a call site in an environment -/
 
@@ -299,6 +299,7 @@ structure Env where
 
 def renderArg (env : Env) : Arg → List Tok
   | .lit => [.str "…"]
+  | .num => [.str "0"]
   | .genErr => generalizedText env.app env.err
   | .rawErr o => (env.raw o).text
   | .typeOf _ => [.str "T"]
@@ -311,7 +312,6 @@ addresses, listed expressions render no client address unless they are listed as
 structure Env.Ok (env : Env) : Prop where
   raw_ok : ∀ o, o ∈ safeOrigins → noClient (env.raw o).text = true
   expr_ok : ∀ s r, lookupRole s exprRoles = some r → r ≠ some Role.client → noClient (env.exprToks s) = true
-  stats_ok : ∀ s, noClient (env.exprToks s) = true ∨ lookupRole s exprRoles ≠ none ∨ True
 
 /-! ### summaries -/
 
